@@ -118,7 +118,7 @@ def parse_cases(lines, tag="@@CASE "):
 
 
 CASE_GROUPS = ["unary", "unaryvec", "scale", "partial", "rotate", "euler", "quat", "rotaxis", "transform",
-               "boostaxis", "binvec", "binnum", "boost", "cmp", "pred", "rawtau"]
+               "boostaxis", "binvec", "binnum", "boost", "cmp", "pred", "rawtau", "collinear"]
 
 
 def _gen_group(args):
